@@ -572,6 +572,11 @@ func runC18(rc *RunCtx) {
 		c18Race(rc, H, nTx)
 		return
 	}
+	// (00) on every other shard the high-s battery is the very first thing the process does; everywhere it is also the last
+	if rc.Shard%2 == 0 {
+		c18HighSBattery(rc, "first", rec)
+	}
+	defer c18HighSBattery(rc, "last", rec)
 	// (0) on a third of the shards, before anything else ran in the process: every rejection branch, three times over
 	if rc.Shard%3 == 1 {
 		c18RepeatBranches(rc)
@@ -781,7 +786,7 @@ func init() {
 			if v, _ := c.Extra["race_log_parsed"].(bool); !v {
 				miss = append(miss, "race pass did not run")
 			}
-			for _, m := range []string{"slow-node-twin", "fixed-extremes", "fresh-process", "after-unrelated-histories", "restart-every-3", "restart-every-11", "concurrent", "race:concurrent-instances", "race:parallel-queries"} {
+			for _, m := range []string{"high-s-battery-last", "slow-node-twin", "fixed-extremes", "fresh-process", "after-unrelated-histories", "restart-every-3", "restart-every-11", "concurrent", "race:concurrent-instances", "race:parallel-queries"} {
 				if c.Matrix["C18_modes"][m] == 0 {
 					miss = append(miss, "mode not exercised: "+m)
 				}
@@ -790,6 +795,40 @@ func init() {
 		},
 		Assumptions: []string{"wall-clock dependence is visible only if it manifests within the seconds between replays", "SDK-internal races (BaseApp.Query concurrent with Commit, shared interface registries) are avoided by the harness, not attributed to the module"},
 	})
+}
+
+// c18HighSBattery: three honest attestations in which one signature is given in its other (high-s) encoding, each
+// verified twice in a row. The list of results is recorded as a transcript: it must be the same whether the battery is
+// the first thing a process does or the last, and the two verifications of one attestation must agree.
+func c18HighSBattery(rc *RunCtx, phase string, rec func(hid int, mode string, d []string, v []Violation, inc []string)) {
+	keys := ref.SortByAddr(AttesterPool[:3])
+	var attesters []ct.Attester
+	for i, k := range keys {
+		attesters = append(attesters, ct.Attester{Attester: k.Spell(i)})
+	}
+	var out []string
+	var viol []Violation
+	for c := 0; c < 3; c++ {
+		msg := structured(60+c, byte(7*c+1))
+		att := ref.HonestAttestation(msg, keys[:2], c%2)
+		copy(att[65*(c%2):], ref.HighSTwin(att[65*(c%2):65*(c%2)+65]))
+		var pair [2]string
+		for k := 0; k < 2; k++ {
+			err := keeper.VerifyAttestationSignatures(msg, append([]byte(nil), att...), attesters, 2)
+			pair[k] = "<nil>"
+			if err != nil {
+				pair[k] = err.Error()
+			}
+			out = append(out, fmt.Sprintf("%x", sha256.Sum256([]byte(pair[k])))[:10])
+		}
+		rc.Cov.Assert("C18.repeat-call-determinism")
+		if pair[0] != pair[1] {
+			viol = append(viol, Violation{Props: []string{"C18"}, Monitor: "repeat-call-determinism", Sig: "C18:verifier-result-varies",
+				Detail: fmt.Sprintf("VerifyAttestationSignatures returned different results for identical arguments (an attestation with one high-s signature): %q vs %q", pair[0], pair[1]),
+				Case:   map[string]string{"message": hex.EncodeToString(msg), "attestation": hex.EncodeToString(att), "threshold": "2"}})
+		}
+	}
+	rec(902, "high-s-battery-"+phase, out, viol, nil)
 }
 
 // c18RepeatCalls: the exported verifier, given the same (message, attestation, attesters, threshold), must return
